@@ -7,9 +7,12 @@
 (*   hbegin / hret / hraise   handler entry / exit                         *)
 (*   append     an INSERT INTO events was issued (inside an open write     *)
 (*              transaction or not - observed on the connection)           *)
-(*   commit     a durable commit; carries the projected statuses, the new  *)
-(*              rows of the events table, its row count, and whether the   *)
-(*              handler's message was marked processed in it               *)
+(*   commit     a durable commit; carries the projected statuses (or       *)
+(*              same = TRUE when they did not change), the new rows of the *)
+(*              events table, its row count, and whether the handler's     *)
+(*              message was marked processed in it.  Commits outside any   *)
+(*              handler that change neither (poll / post-mark / ack) are   *)
+(*              pure stutters of this projection and are not recorded.     *)
 (*   rollback   a transaction was rolled back                              *)
 (*   pub        the synchronous bus subscriber received an event           *)
 (*   crash      simulated process kill (possibly inside a transaction)     *)
